@@ -1629,9 +1629,18 @@ func (a *APLPrefix) copy() APLPrefix {
 
 // len returns size of the prefix in wire format.
 func (a *APLPrefix) len() int {
-	// 4-byte header and the network address prefix (see Section 4 of RFC 3123)
+	// 4-byte header and the network address prefix (see Section 4 of RFC 3123),
+	// without the trailing zero octets that packDataAplPrefix leaves out.
 	prefix, _ := a.Network.Mask.Size()
-	return 4 + (prefix+7)/8
+	addr := a.Network.IP.Mask(a.Network.Mask)
+	n := (prefix + 7) / 8
+	if n > len(addr) {
+		n = len(addr)
+	}
+	for n > 0 && addr[n-1] == 0 {
+		n--
+	}
+	return 4 + n
 }
 
 // TimeToString translates the RRSIG's incep. and expir. times to the
